@@ -452,6 +452,28 @@ class Ctx:
         return bad
 
 
+def guard_pass(ctx, exe, lines, ref, what, extra):
+    """the driver lines again with every array the process allocates (operands, results, the library's temporaries) ending flush with an inaccessible
+       page (harness/guard_new.h): the call must neither die nor answer otherwise than on the ordinary heap.  ref: the outputs of the ordinary run"""
+    outs = run_lines(exe, ['guard 1'] + list(lines), timeout=1800)[1:]
+    n = 0
+    for l, o, r in zip(lines, outs, ref):
+        ctx.count(('guard', what, l[:4000]))
+        if r.startswith('CRASH'): continue
+        if o.startswith('CRASH') or o.strip() != r.strip():
+            n += 1
+            if n <= 2:
+                ctx.report('out-of-bounds-at-page-end', '%s: %s when every array ends at an inaccessible page (%s): %s...' % (
+                    what, 'the call dies (it reads or writes past the end of an array)' if o.startswith('CRASH') else 'the result differs from the one computed on the ordinary heap', o[:60], l[:80]),
+                    dict(extra, case=l[:60000], guard=1, impl=o[:300], ordinary=r[:300]))
+    ctx.cov['guard_page_cases_' + what.replace(' ', '_')] = len(lines)
+    return n
+
+def guard_replay(exe, data):
+    o0 = run_lines(exe, [data['case']])[0]; o1 = run_lines(exe, ['guard 1', data['case']])[1]
+    print('case:', data['case'][:200], '\nordinary heap:', o0[:120], '\narrays at page ends:', o1[:120])
+    return 1 if o0.strip() != o1.strip() else 0
+
 def load_findings():
     p = os.path.join(VERIF, 'known_findings.json')
     if not os.path.exists(p): return []
